@@ -317,6 +317,24 @@ def run_harness(h, replay_bins, tier_caps):
         # replay every failed assertion for which Kani produced concrete values
         res["replays"] = []
         for f in pk["failed"]:
+            if h.get("witness"):
+                # Kani-only body (no native twin): the counterexample is confirmed by a native public-API witness
+                rp = {"desc": f["desc"], "vals": None, "witness": h["witness"], "profiles": {}, "native_failed": []}
+                ok = []
+                for prof, binp in replay_bins.items():
+                    try:
+                        pr = subprocess.run([binp, "--witness", h["witness"]], stdout=subprocess.PIPE, stderr=subprocess.PIPE, text=True, timeout=300)
+                        rp["profiles"][prof] = {"rc": pr.returncode, "out": (pr.stdout + pr.stderr)[-300:]}
+                        ok.append(pr.returncode == 1)
+                    except Exception as e:  # noqa
+                        rp["profiles"][prof] = {"error": str(e)}
+                        ok.append(False)
+                rp["reproduced"] = all(ok) if ok else None
+                pbv = [p for p in pk["playback"] if p["kind"] != "cover" and p["desc"] == f["desc"]]
+                if pbv:
+                    rp["vals"] = pbv[0]["vals"]
+                res["replays"].append(rp)
+                continue
             # Kani de-duplicates playback tests with identical concrete values (CBMC reuses one model for
             # several properties), so the values for this assertion may be filed under another check:
             # try the block for this assertion first, then every other block; a candidate counts only if
@@ -619,7 +637,8 @@ def write_evidence(prop, tier, seed, meta, results, wall, nviol, known_hits=(), 
             "bounds": m.get("bounds", ""),
             "outside_bounds": m.get("outside", ""),
             "engine": m.get("engine", "Kani 0.68 / CBMC 6.11 (cadical), unwinding assertions on"),
-            "per_harness": [{k: r.get(k) for k in ("name", "status", "checks", "solver_time_s", "wall_s", "cap_s", "reason")} for r in sorted(results, key=lambda r: r["name"])],
+            "per_harness": [{k: r.get(k) for k in ("name", "status", "checks", "solver_time_s", "wall_s", "cap_s", "reason", "detail", "functions") if r.get(k) is not None or k in ("name", "status")}
+                            for r in sorted(results, key=lambda r: r["name"])],
             "build_failed": build_failed,
             "exhaustive": False,
         },
